@@ -37,6 +37,61 @@ def reach_types(F, root, seen=None, path=()):
     return seen
 
 
+def open_mode(rep, F, cg):
+    """`a write replaces the whole content, an append never alters the existing prefix` — decided at the point where the backends open / create the record"""
+    import re, inline
+    from panics import skey_call, sdesc_operand
+    R = 'OPEN-MODE'
+    rep.rule(R, 'Stdfs::write and Stdfs::write_all open their target with File::create or an OpenOptions chain that sets write(true) and truncate(true); '
+             'Stdfs::append opens with append(true) and never truncate(true); the handle Memfs::write returns starts from an EMPTY buffer and Memfs::write_all '
+             'ASSIGNS the record\'s data (no extend / append of the old bytes)')
+    STDFS = 'sys::fs::stdfs::Stdfs'
+    n = 0
+    for m, kind in (('write', 'trunc'), ('write_all', 'trunc'), ('append', 'append')):
+        fn = '<%s>::%s' % (STDFS, m)
+        if fn not in F.bodies:
+            rep.add(R, 'openmode:stdfs:%s' % m, '%s exists' % fn, False, detail='anchor missing')
+            continue
+        sites = []
+        for B, i, t, _f, _inl in inline.walk_calls(F, cg, fn, lambda B, i: [], lambda d, v: (d, v)):
+            c = callee_of(t) or ''
+            if c in ('<std::fs::File>::create', '<std::fs::File>::create_new', '<std::fs::OpenOptions>::open', '<std::fs::File>::open'):
+                sites.append((c, skey_call(B, t), B.loc(i)))
+        n += len(sites)
+        bad = []
+        for c, d, loc in sites:
+            if kind == 'trunc':
+                good = c == '<std::fs::File>::create' or (c == '<std::fs::OpenOptions>::open' and re.search(r'truncate\(.*,true\)', d) and re.search(r'write\(.*,true\)', d)
+                                                        and not re.search(r'append\(.*,true\)', d))
+            else:
+                good = c == '<std::fs::OpenOptions>::open' and re.search(r'append\(.*,true\)', d) and not re.search(r'truncate\(.*,true\)', d)
+            if not good:
+                bad.append('%s at %s' % (d, loc))
+        ok = bool(sites) and not bad
+        rep.add(R, 'openmode:stdfs:%s' % m, 'Stdfs::%s opens its file in %s mode' % (m, 'create+truncate' if kind == 'trunc' else 'append'), ok, '',
+                '' if ok else ('Stdfs::%s opens its file with %s: %s' % (m, bad, 'old bytes beyond the new data survive a write' if kind == 'trunc' else 'the existing prefix is not preserved')
+                               if bad else 'Stdfs::%s has no file-open site' % m))
+    TR = 'sys::fs::vfs::VirtualFileSystem'
+    MEMFS = 'sys::fs::memfs::vfs::Memfs'
+    fn = '<%s as %s>::write' % (MEMFS, TR)
+    if fn in F.bodies:
+        B = cg.body(fn)
+        aggs = [(i, s) for i, j, s in B.assigns() if s['rv']['k'] == 'aggregate' and s['rv'].get('adt', '').endswith('MemfsFile')]
+        bad = []
+        for i, s in aggs:
+            fields = dict(zip(s['rv']['fields'], s['rv']['ops']))
+            d = sdesc_operand(B, fields['data']) if 'data' in fields else '?'
+            if not re.fullmatch(r'(new\(\)|Vec::new\(\)|into_vec\(.*\[\].*\)|default\(\)|from_elem\(.*\)|with_capacity\(.*\)|var<.*>|const<.*>)', d) or 'clone' in d or 'data' in d:
+                bad.append(d)
+        n += len(aggs)
+        ok = bool(aggs) and not bad
+        rep.add(R, 'openmode:memfs:write', 'the handle returned by Memfs::write starts from an empty buffer', ok, '%s:%d' % (B.file, B.line),
+                '' if ok else 'Memfs::write builds its handle with data = %s (expected an empty vector): old content would survive a write' % (bad or 'no MemfsFile aggregate'))
+    else:
+        rep.add(R, 'openmode:memfs:write', '%s exists' % fn, False, detail='anchor missing')
+    rep.floor(R, 'open sites', n, 4)
+
+
 def run(rep, F, ctx):
     cg = CallGraph(F)
     rep.rule('OWNED-DATA', 'no type reachable through fields from MemfsInner / MemfsFile / MemfsEntry is a shared-ownership or interior-mutability type '
@@ -130,8 +185,12 @@ def run(rep, F, ctx):
         ok = bool(sites) and all(sdesc_operand(B, t['args'][2]).startswith('_clone_file(') for i, t in sites)
         rep.add('OWN-KEY', 'ownkey:_copy', '_copy stores a clone of the source data (_clone_file result) under the destination key', ok, '%s:%d' % (B.file, B.line),
                 '' if ok else '_copy stores %s' % [sdesc_operand(B, t['args'][2]) for i, t in sites])
+    open_mode(rep, F, cg)
     import mustcall as _mc
     _mc.handle_path(rep, F, cg)
+    import siteguard as _sg
+    _t = engine.load_table('site_guards.json')
+    _sg.site_guard(rep, F, cg, _t, _t['_groups']['C06'])
     return engine.finish(
         rep, 'other', EXPLANATION,
         assumptions=['Rust ownership: a value of a type without sharing/interior-mutability components and without references has a unique owner',
